@@ -491,6 +491,37 @@ pub fn eval_root(c: &RootCase) -> Outcome {
                     }
                 }
             }
+            // clause 2b: the editor's save path. A parsed root goes into a WmoEditor, is converted to the version
+            // it was written for (a parsed MVER-17 root carries the oldest version label) and saved: the bytes are
+            // those of write_root on the editor's current root at its current version
+            let mut ed = wow_wmo::WmoEditor::new(p);
+            let saved = guard("WmoEditor::convert_to_version+save_root", || -> Result<Option<Vec<u8>>, wow_wmo::WmoError> {
+                if ed.convert_to_version(ver).is_err() {
+                    return Ok(None);
+                }
+                let mut cur = Cursor::new(Vec::new());
+                ed.save_root(&mut cur)?;
+                Ok(Some(cur.into_inner()))
+            });
+            match saved {
+                Err(f) => o.fails.push(f),
+                Ok(Err(e)) => push(&mut o.fails, "root-editor-save-error", format!("WmoEditor::save_root after convert_to_version({ver:?}): {e}")),
+                Ok(Ok(None)) => o.notes.push("root_editor_conversion_refused"),
+                Ok(Ok(Some(se))) => match write_root_bytes(ed.root(), ed.current_version()) {
+                    Err(f) => o.fails.push(f),
+                    Ok(we) => {
+                        o.notes.push(if ed.original_version() != ed.current_version() { "root_editor_saved_after_version_change" } else { "root_editor_saved" });
+                        if se != we {
+                            let pos = se.iter().zip(&we).position(|(a, b)| a != b).unwrap_or(se.len().min(we.len()));
+                            push(
+                                &mut o.fails,
+                                "root-editor-save-differs-from-write-root-at-current-version",
+                                format!("editor created at {:?}, converted to {:?}: save_root writes {} bytes, write_root(editor.root(), current_version) {} bytes, first difference at byte {pos}", ed.original_version(), ed.current_version(), se.len(), we.len()),
+                            );
+                        }
+                    }
+                },
+            }
         }
     }
     // clause 3: the parse_wmo API on the bytes as written
